@@ -170,6 +170,23 @@ func runC10(c *fw.Ctx) {
 	if b0, err := t.Commit(1 + r.Intn(5)); err == nil { // a first commit makes every node clean (and collapses deep subtrees)
 		_ = b0.Commit(true)
 	}
+	// a third of the tries: some entries are deleted and put back unchanged in one commit window, then a commit and two
+	// garbage-collection passes - the proofs below are served by what is left in storage
+	if r.Intn(3) == 0 && len(m) > 0 {
+		ks := m.Keys()
+		for i := 0; i < 1+r.Intn(2); i++ {
+			k := ks[r.Intn(len(ks))]
+			if err := t.Update([]byte(k), nil, 0); err == nil {
+				_ = t.Update([]byte(k), m[k].Val, m[k].W)
+			}
+		}
+		if b1, err := t.Commit(r.Intn(6)); err == nil {
+			_ = b1.Commit(true)
+		}
+		_ = t.DeleteNodes()
+		_ = t.DeleteNodes()
+		c.Count("tries_with_readded_entries_and_gc", 1)
+	}
 	for _, k := range m.Keys() {
 		if r.Intn(3) == 0 {
 			v := g.SameWeightValue(m[k].W)
@@ -195,8 +212,32 @@ func runC10(c *fw.Ctx) {
 			t = wl.Reopen(wr, ww, db)
 		}
 	}
+	// proofs from a snapshot view (CopyRoot) of a committed trie, after the trie it was taken from has moved on in memory,
+	// must still verify against the snapshot's root and name the snapshot's owners and values
+	moved := ""
+	if mode != 0 && r.Intn(2) == 0 {
+		vm := m.Copy()
+		view := wmpt.New(t.CopyRoot(r.Intn(8)), db)
+		ks := m.Keys()
+		for i := 0; i < 1+r.Intn(3); i++ {
+			k := ks[r.Intn(len(ks))]
+			v, w := g.Value()
+			if r.Intn(2) == 0 {
+				v, w = g.SameWeightValue(m[k].W), m[k].W
+			}
+			if err := t.Update([]byte(k), v, w); err == nil {
+				m[k] = wl.Entry{Val: v, W: w}
+			}
+		}
+		if f := wl.CheckFull(view, vm, true); f != "" {
+			c.Violate("", "honest half, snapshot view taken before %s was updated further: %s", "the trie", f)
+			return
+		}
+		c.Count("snapshot_views_checked_after_live_updates", 1)
+		moved = ", then updated in memory"
+	}
 	root, W := m.Ref()
-	desc := fmt.Sprintf("trie of %d keys, total weight %d, %s", len(m), W, []string{"in memory", "committed", "committed and reloaded"}[mode])
+	desc := fmt.Sprintf("trie of %d keys, total weight %d, %s%s", len(m), W, []string{"in memory", "committed", "committed and reloaded"}[mode], moved)
 	c.Describe(map[string]any{"trie": desc})
 	// honest half
 	if f := wl.CheckFull(t, m, true); f != "" {
@@ -429,7 +470,7 @@ func init() {
 			return 1280
 		},
 		Run: runC10,
-		Floors: map[string]int64{"tries": 1000, "honest_proofs_verified": 20000, "tamperings": 1000000, "tamper:T2 sum-changing re-weighting": 10000, "tamper:T1 sum-preserving re-weighting": 10000, "tamper:T3 swapped sibling hashes": 10000,
+		Floors: map[string]int64{"tries_with_readded_entries_and_gc": 300, "snapshot_views_checked_after_live_updates": 300, "tries": 1000, "honest_proofs_verified": 20000, "tamperings": 1000000, "tamper:T2 sum-changing re-weighting": 10000, "tamper:T1 sum-preserving re-weighting": 10000, "tamper:T3 swapped sibling hashes": 10000,
 			"tamper:T4 honest proof of another block": 10000, "tamper:T5 dropped element": 10000, "tamper:T6 value weight edited": 5000, "tamper:T7 element replaced by a hash node": 10000, "tamper:T8 bit flips": 50000, "rejected_with_error": 100000, "rejected_other_root": 100000, "same_weight_overwrites": 1000, "tamper:T6 long value edited beyond byte 32": 500},
 		Assumptions: []string{
 			"the adversarial half ranges over structured tamperings of honest proofs and random byte edits, not over all byte strings",
